@@ -60,10 +60,15 @@ Definition model_domain (dt fv gvr : list N) : option (list N) :=
   | Some r => Some (copy32 (dt ++ firstn 28 r))
   | None => None
   end.
+(* the domain does not depend on the index: a constant (computed once by the extracted code) *)
+Definition model_domain_const : option (list N) :=
+  model_domain Gen.Rotation.DomainBlsToExecutionChange Gen.Rotation.GenesisForkVersion
+               Gen.Rotation.GenesisValidatorRoot.
+
 (* GetSigningRoot *)
+Local Open Scope string_scope.
 Definition model_signing_root (index : N) : option chunk :=
-  match model_domain Gen.Rotation.DomainBlsToExecutionChange Gen.Rotation.GenesisForkVersion
-                     Gen.Rotation.GenesisValidatorRoot with
+  match model_domain_const with
   | None => None
   | Some domain =>
       match hash_root sha256 Gen.SszPrograms.BLSToExecutionChange_prog
@@ -77,11 +82,6 @@ Definition model_signing_root (index : N) : option chunk :=
       end
   end.
 Local Close Scope string_scope.
-
-(* the domain does not depend on the index: computed once (also by the extracted code) *)
-Definition model_domain_const : option (list N) :=
-  model_domain Gen.Rotation.DomainBlsToExecutionChange Gen.Rotation.GenesisForkVersion
-               Gen.Rotation.GenesisValidatorRoot.
 
 (* ---------- requests.ReconstructBakedMessage / TasksToMessages ---------- *)
 Record msg_to_sign := {
